@@ -404,6 +404,8 @@ def prop_c04bec2(k, bs, cs, es, ephs, what, stride, offset):
     _p = len(BEC2_FILE_SIG)
     for _t, _v in _header_tlvs(binary)[0]:
         hdr_framing.update((_p, _p + 1))
+        if _t == 3 and _v:
+            hdr_framing.add(_p + 2)          # the key-selector byte of an ECC block: plain, outside any container
         _p += 2 + len(_v)
     hdr_framing.update((_p, _p + 1))
 
@@ -716,13 +718,18 @@ def prop_c06nocipher(k, cs, mode):
             return super().encrypt(data)
 
     if mode == "strict":
-        want = Bf3File({}, b3.parse_comps(cs)).to_binary(5, key)
+        try:
+            want = Bf3File({}, b3.parse_comps(cs)).to_binary(5, key)
+        except OverflowError:
+            return "ok writer-rejects OverflowError"      # an entry beyond the 255-byte directory-entry limit
         try:
             crypto.register_AES128(Strict)
             try:
                 got = Bf3File({}, b3.parse_comps(cs)).to_binary(5, key)
             except ValueError as e:
                 return f"FAIL the library hands the registered cipher unpadded data: {e}"
+            except OverflowError:
+                return "ok writer-rejects OverflowError"
             return "ok strict" if got == want else "FAIL another file is written under a cipher that insists on whole blocks"
         finally:
             crypto.register_AES128(saved)
